@@ -116,6 +116,7 @@ func main() {
 	workers := flag.Int("j", 16, "parallel jobs")
 	verbose := flag.Bool("v", false, "verbose")
 	noReplay := flag.Bool("noreplay", false, "skip native replay of counterexamples")
+	native := flag.Bool("native", false, "self-test: run every harness natively (compiled, real packages) with all-zero inputs; no assertion may fail")
 	cpuprof := flag.String("cpuprofile", "", "write a CPU profile")
 	flag.Parse()
 	if *cpuprof != "" {
@@ -153,6 +154,11 @@ func main() {
 		os.Exit(2)
 	}
 	defer st.Close()
+	if *native {
+		code := nativeSmoke(spec, st, *tier, *only)
+		st.Close()
+		os.Exit(code)
+	}
 	code := run(spec, st, *tier, seed, *only, *workers, *verbose, *noReplay, t0)
 	st.Close()
 	pprof.StopCPUProfile()
@@ -404,4 +410,36 @@ func TestVerifReplay(t *testing.T) {
 	script := fmt.Sprintf("#!/bin/sh\n# replay of a counterexample found by vcheck; staged internal packages need `vcheck --replay`.\ncd %s && VRT_CEX=%s GOWORK=<go.work generated by vcheck> go test -vet=off -count=1 -run '^TestVerifReplay$' -overlay %s -v .\n", h.Dir, filepath.Join(dir, "cex.json"), ovPath)
 	os.WriteFile(filepath.Join(dir, "replay.sh"), []byte(script), 0o755)
 	return strings.Contains(s, "REPRODUCED"), s
+}
+
+// nativeSmoke compiles the harnesses with the real toolchain and runs each
+// once with default (zero) inputs: a differential check of the interpreter's
+// verdict "no assertion can fail" against the real packages.
+func nativeSmoke(spec *PropSpec, st *interp.Stage, tier, only string) int {
+	seen := map[string]bool{}
+	rc := 0
+	for _, j := range spec.Jobs(tier) {
+		if seen[j.Group+"/"+j.Harness] || (only != "" && !strings.Contains(j.Key(), only)) {
+			continue
+		}
+		seen[j.Group+"/"+j.Harness] = true
+		l, err := st.Load(j.Group)
+		if err != nil {
+			fmt.Println("load:", err)
+			return 2
+		}
+		dir := filepath.Join(st.Verif, "replays", spec.ID, "native-"+j.Harness)
+		os.MkdirAll(dir, 0o755)
+		writeCex(dir, j, &interp.Violation{Label: "native-smoke"})
+		failed, out := replay(st, j, l, dir)
+		status := "ok"
+		if failed || !strings.Contains(out, "ok  ") {
+			status = "FAILED"
+			rc = 1
+			fmt.Println(out)
+		}
+		fmt.Printf("native %s %s\n", j.Key(), status)
+		os.RemoveAll(dir)
+	}
+	return rc
 }
